@@ -1,0 +1,220 @@
+//go:build verif
+
+package cache
+
+// Contracts for the deductive verifier in /verif (comment-only file, build tag verif).
+
+//@ spec clInv(l *lexer) bool = l != nil && 0 <= l.pos && l.pos <= len(l.input) && 0 <= l.tokenPos && l.tokenPos <= len(l.tokens)
+//@ spec tokOK(t token, l *lexer) bool = 0 <= t.start && t.start <= t.end && t.end <= len(l.input)
+
+//@ func token.setStart
+//@   requires t != nil
+//@   ensures t.start == start
+//@   modifies t.start
+//@   safety nil
+
+//@ func token.setEnd
+//@   requires t != nil && 0 <= t.start && t.start <= end && end <= len(input)
+//@   ensures t.end == end && t.start == old(t.start)
+//@   modifies t.end, t.lit
+//@   safety nil
+
+//@ func lexer.atEnd
+//@   requires l != nil
+//@   ensures result <==> l.pos >= len(l.input)
+//@   pure
+//@   safety nil
+
+//@ func lexer.read
+//@   requires clInv(l)
+//@   ensures clInv(l)
+//@   ensures old(l.pos) < len(l.input) ==> l.pos == old(l.pos) + 1 && 0 <= result && result <= 255 && result == l.input[old(l.pos)]
+//@   ensures old(l.pos) >= len(l.input) ==> l.pos == old(l.pos) && result == 0 - 1
+//@   modifies l.pos
+//@   safety nil
+
+//@ func lexer.peek
+//@   requires clInv(l) && 0 <= n && n <= 1
+//@   ensures l.pos + n < len(l.input) ==> 0 <= result && result <= 255 && result == l.input[l.pos + n]
+//@   ensures l.pos + n >= len(l.input) ==> result == 0 - 1
+//@   pure
+//@   safety nil
+
+//@ func lexer.advance
+//@   requires clInv(l) && 0 <= n && n <= 1
+//@   ensures clInv(l) && l.pos >= old(l.pos)
+//@   ensures old(l.pos) + n < len(l.input) ==> l.pos == old(l.pos) + n
+//@   ensures old(l.pos) + n >= len(l.input) ==> l.pos == len(l.input)
+//@   modifies l.pos
+//@   safety nil
+
+//@ func lexer.isWhitespace
+//@   ensures result <==> (r == 32 || r == 9)
+//@   pure
+
+//@ func lexer.isControlCharacter
+//@   ensures result <==> (r >= 0 && (r <= 31 || r == 127))
+//@   pure
+
+//@ func lexer.isForbiddenCharacter
+//@   ensures result <==> (r != 9 && r >= 0 && (r <= 31 || r == 127))
+//@   pure
+
+//@ func lexer.isPrintableCharacter
+//@   ensures result <==> (r >= 32 && r <= 126)
+//@   pure
+
+//@ func lexer.isInvalidTokenCharacter
+//@   pure
+
+//@ func lexer.matchSingleRuneToken
+//@   requires tok != nil
+//@   ensures result <==> (r == 0 - 1 || r == 61 || r == 44)
+//@   ensures result && r == 0 - 1 ==> tok.tt == tokenTypeEOF
+//@   ensures result && r != 0 - 1 ==> tok.tt != tokenTypeEOF
+//@   ensures !result ==> tok.tt == old(tok.tt)
+//@   modifies tok.tt
+//@   safety nil
+
+//@ func lexer.readIdent
+//@   requires clInv(l) && tok != nil && 0 <= tok.start && tok.start <= l.pos
+//@   ensures clInv(l) && l.pos >= old(l.pos)
+//@   ensures result == nil ==> tok.tt == tokenTypeIdent && 0 <= tok.start && tok.start <= tok.end && tok.end <= len(l.input)
+//@   modifies l.pos, *tok
+//@   safety nil
+//@   loop 0:
+//@     invariant clInv(l) && l.pos >= old(l.pos) && tok.start == old(tok.start) && tok.tt == tokenTypeIdent
+//@     decreases len(l.input) - l.pos
+
+//@ func lexer.readString
+//@   requires clInv(l) && tok != nil
+//@   ensures clInv(l) && l.pos >= old(l.pos)
+//@   ensures result == nil ==> tok.tt == tokenTypeString && 0 <= tok.start && tok.start <= tok.end && tok.end <= len(l.input) && l.pos > old(l.pos)
+//@   modifies l.pos, *tok
+//@   safety nil
+//@   loop 0:
+//@     invariant clInv(l) && l.pos >= old(l.pos) && tok.start == old(l.pos) && tok.tt == tokenTypeString
+//@     decreases len(l.input) - l.pos
+
+//@ func lexer.nextToken
+//@   requires clInv(l)
+//@   ensures clInv(l) && l.pos >= old(l.pos)
+//@   ensures result1 == nil ==> tokOK(result0, l)
+//@   ensures result1 == nil && result0.tt != tokenTypeEOF ==> l.pos > old(l.pos)
+//@   modifies l.pos
+//@   safety nil
+//@   loop 0:
+//@     invariant clInv(l) && l.pos >= old(l.pos)
+//@     decreases len(l.input) - l.pos
+
+//@ func lexer.tokenize
+//@   requires clInv(l) && len(l.tokens) == 0
+//@   ensures clInv(l)
+//@   ensures result == nil ==> (forall k in 0..len(l.tokens) :: tokOK(l.tokens[k], l))
+//@   modifies l.pos, l.tokens, elems(l.tokens)
+//@   safety nil
+//@   loop 0:
+//@     invariant clInv(l) && l.tokenPos == old(l.tokenPos) && len(l.tokens) >= old(len(l.tokens))
+//@     invariant arr(l.tokens) == old(arr(l.tokens)) || fresh(l.tokens)
+//@     invariant forall k in 0..len(l.tokens) :: tokOK(l.tokens[k], l)
+//@     decreases len(l.input) - l.pos
+
+//@ func lexer.peekToken
+//@   requires clInv(l)
+//@   ensures l.tokenPos < len(l.tokens) ==> result == l.tokens[l.tokenPos]
+//@   ensures l.tokenPos >= len(l.tokens) ==> result.tt == tokenTypeEOF
+//@   pure
+//@   safety nil
+
+//@ func lexer.readToken
+//@   requires clInv(l) && offset == 0
+//@   ensures clInv(l) && l.tokenPos >= old(l.tokenPos)
+//@   ensures old(l.tokenPos) < len(l.tokens) ==> result == l.tokens[old(l.tokenPos)] && l.tokenPos == old(l.tokenPos) + 1
+//@   ensures old(l.tokenPos) >= len(l.tokens) ==> result.tt == tokenTypeEOF && l.tokenPos == old(l.tokenPos)
+//@   modifies l.tokenPos
+//@   safety nil
+
+//@ func lexer.readArgument
+//@   requires clInv(l)
+//@   ensures clInv(l) && l.tokenPos >= old(l.tokenPos)
+//@   modifies l.tokenPos
+//@   safety nil
+
+//@ func DeltaSeconds.AsDuration
+//@   ensures result == d * 1000000000
+//@   ensures d > 0 ==> result > 0
+//@   pure
+//@   arith checked
+
+//@ func parseDeltaSeconds
+//@   ensures 0 - 1 <= result0 && result0 <= 2147483647
+//@   ensures result1 == nil && atoi(s) >= 0 ==> result0 <= atoi(s)
+//@   ensures result1 == nil && 0 <= atoi(s) && atoi(s) <= 2147483647 ==> result0 == atoi(s)
+//@   pure
+
+//@ func deltaSecondsArgument
+//@   ensures result1 == nil ==> 0 - 1 <= result0 && result0 <= 2147483647
+//@   ensures result1 == nil ==> arg.present && len(arg.text) > 0
+//@   pure
+//@   loop 0:
+//@     invariant 0 <= i && i <= len(arg.text)
+//@     decreases len(arg.text) - i
+
+//@ func newLexer
+//@   ensures clInv(result) && len(result.tokens) == 0 && result.tokenPos == 0
+//@   fresh
+//@   pure
+
+//@ func NewFieldNames
+//@   ensures result != nil
+//@   fresh
+//@   pure
+
+// fieldNamesArgument iterates with range-over-func (strings.SplitSeq), which is outside the verifier's
+// Go subset: its frame is assumed, not proved.
+//@ func fieldNamesArgument
+//@   requires fields != nil
+//@   modifies *fields, mapof(fields.fields)
+//@   trusted range-over-func body (strings.SplitSeq) is outside the supported subset; only the frame is assumed
+
+// parseIdent: effect of one directive on the parsed structure. The postconditions are the
+// per-directive half of "refusal directives are never lost, public is never invented".
+//@ func parseIdent
+//@   requires clInv(l) && cc != nil
+//@   ensures clInv(l) && l.tokenPos >= old(l.tokenPos)
+//@   ensures {nostore.kept} old(cc.NoStore) ==> cc.NoStore
+//@   ensures {nostore.set} result == nil && lower(name.lit) == "no-store" ==> cc.NoStore
+//@   ensures {public.only.from.directive} cc.Public ==> old(cc.Public) || lower(name.lit) == "public"
+//@   ensures {nocache.kept} old(cc.NoCache) != nil ==> cc.NoCache != nil
+//@   ensures {nocache.set} result == nil && lower(name.lit) == "no-cache" ==> cc.NoCache != nil
+//@   ensures {private.kept} old(cc.Private) != nil ==> cc.Private != nil
+//@   ensures {private.set} result == nil && lower(name.lit) == "private" ==> cc.Private != nil
+//@   ensures {maxage.first.wins} old(cc.MaxAge) != nil ==> cc.MaxAge == old(cc.MaxAge)
+//@   ensures {smaxage.first.wins} old(cc.SMaxAge) != nil ==> cc.SMaxAge == old(cc.SMaxAge)
+//@   modifies *
+
+//@ func parse
+//@   ghost var g_sawNoStore bool = false
+//@   ghost var g_sawPublic bool = false
+//@   ghost var g_sawNoCache bool = false
+//@   ghost var g_sawPrivate bool = false
+//@   at call parseIdent: ghost g_sawNoStore = g_sawNoStore || (result == nil && lower(arg0.lit) == "no-store")
+//@   at call parseIdent: ghost g_sawNoCache = g_sawNoCache || (result == nil && lower(arg0.lit) == "no-cache")
+//@   at call parseIdent: ghost g_sawPrivate = g_sawPrivate || (result == nil && lower(arg0.lit) == "private")
+//@   at call parseIdent: ghost g_sawPublic = g_sawPublic || lower(arg0.lit) == "public"
+//@   ensures result1 == nil ==> result0 != nil
+//@   ensures {nostore.never.lost} result1 == nil && g_sawNoStore ==> result0.NoStore
+//@   ensures {nocache.never.lost} result1 == nil && g_sawNoCache ==> result0.NoCache != nil
+//@   ensures {private.never.lost} result1 == nil && g_sawPrivate ==> result0.Private != nil
+//@   ensures {public.never.invented} result1 == nil && result0.Public ==> g_sawPublic
+//@   modifies *
+//@   loop 0:
+//@     invariant clInv(l) && cc != nil
+//@     invariant g_sawNoStore ==> cc.NoStore
+//@     invariant g_sawNoCache ==> cc.NoCache != nil
+//@     invariant g_sawPrivate ==> cc.Private != nil
+//@     invariant cc.Public ==> g_sawPublic
+
+//@ func ParseCacheControlResponse
+//@   ensures result1 == nil ==> result0 != nil
+//@   modifies *
